@@ -23,7 +23,7 @@ P = {
          'GDevice/ADevice polynomials restricted to convex ones as the property says.'),
  'C08': ('proof', 'cost(s,p) = cost(s,0) + sum s*p and deriv(s,p) = deriv(s,0) + p for every class and, by induction, every tree; model Hessians have no price argument.',
          'The four price shapes (matrix, per-slot vector, scalar, (1,n) row) of the set-level code are re-translated from the source and bridged to the broadcast price matrices (T1s); numpy broadcasting itself is denoted by the translator and observed by correspondence.'),
- 'C09': ('proof', 'soc, charge_at and the state bounded by the storage constraints satisfy the documented first-order recurrence from start*capacity; thermal temperature satisfies T_i = s T_{i-1} + (1-s) TE_i + e r_i for any real external temperatures and flows; all horizons.',
+ 'C09': ('proof', 'soc, charge_at and the state bounded by the storage constraints satisfy the documented first-order recurrence from start*capacity; thermal temperature satisfies T_i = s T_{i-1} + (1-s) TE_i + e r_i for any real external temperatures and flows; all horizons. Conversely (DK.Props.C09b) the recurrence has exactly one solution and charge_at / r2t report it, the state after slot i reads only flows of slots <= i, is monotone in them for efficiency > 0 and sustainment >= 0, integrates the flow when lossless, and the temperature is affine in consumption and shifts with the external temperature.',
          ''),
  'C10': ('proof', 'PARTIAL. Proved: the definedness side-conditions generated from the current kernel source (every division and general power) hold under the acceptance conditions for in-bounds flows. Shape contracts and absence of exceptions are numpy glue: observed for the listed horizon lengths and boundary grid, not proved.',
          ''),
@@ -31,7 +31,7 @@ P = {
          'Python duck typing is abstracted by PyVal.'),
  'C12': ('proof', 'PARTIAL. Over a hand abstraction of the mutable state (constraint cells, lazy caches, lru_cache, caller cells): every finite history of read-only operations leaves every later observation equal to a fresh twin. The abstraction itself is validated by correspondence and the fresh-twin oracle only.',
          ''),
- 'C13': ('proof', 'labels has one entry per row in row order, each the dot-joined ids from the root followed by the block label; map pairs label k with row k, which is the row the owning block reads.',
+ 'C13': ('proof', 'labels has one entry per row in row order, each the dot-joined ids from the root followed by the block label; map pairs label k with row k, which is the row the owning block reads; map is total over the rows, in row order, entry k reads row k only, and re-rooting a subtree only prepends the path to its labels (DK.Props.C13b).',
          'regex lookup abstracted.'),
  'C14': ('proof', 'PARTIAL for storage/thermal. Closed-form Hessians are the Jacobian of the marginal cost, symmetric, PSD under acceptance, for all classes and combinators; numerically differentiated Hessians (storage, thermal) are compared with finite differences and with the analytic second derivative of the model (DK.C14b) within the documented accuracy only.',
          'TemporalVariance has a proved analytic Hessian (negative semidefinite: no PSD claim) tied by correspondence at 1e-4; CobbDouglas / InformationEntropy Hessians are observed by second differences only.'),
